@@ -699,6 +699,20 @@ func (ro *Roles) acceptEffects(r *Report, which map[string]bool) {
 			case len(set) == 1 && set["Queue"]:
 				note("accept.action-queue", fname+": action Queue", push && !startCall && !replaceStore, pos, fmt.Sprintf("on Queue the job must be pushed to the back of the wait list and not started (push=%v start=%v replace=%v)", push, startCall, replaceStore))
 			case len(set) == 1 && set["Replace"]:
+				// the admission table (table.admission) answers Replace only for a non-empty wait list: a
+				// defensive `len(waitList) == 0` branch under Replace is not taken
+				emptyGuard := false
+				for _, l := range p.Lits {
+					if l.Atom.L == "len(recv."+waitListField+"[arg0])" && (l.Atom.Op == "==" && l.Atom.R == "0" && l.Val || l.Atom.Op == "<=" && l.Atom.R == "0" && l.Val || l.Atom.Op == "<" && l.Atom.R == "1" && l.Val) {
+						emptyGuard = true
+					}
+					if l.Atom.R == "len(recv."+waitListField+"[arg0])" && l.Atom.Op == "<" && l.Atom.L == "0" && !l.Val {
+						emptyGuard = true
+					}
+				}
+				if emptyGuard {
+					break
+				}
 				note("accept.action-replace", fname+": action Replace", replaceStore && prevCanceled && !startCall && !push, pos, fmt.Sprintf("on Replace the last waiting job must be marked canceled and its slot overwritten by the new job (overwritten=%v previous canceled=%v start=%v push=%v)", replaceStore, prevCanceled, startCall, push))
 			case len(set) == 1 && set["Start"]:
 				note("accept.action-start", fname+": action Start", startCall && !push && !replaceStore, pos, fmt.Sprintf("on Start the job must be started and must not enter the wait list (start=%v push=%v replace=%v)", startCall, push, replaceStore))
